@@ -44,18 +44,22 @@ namespace cnl {
         template<>
         struct overflow_polarity<add_op> {
             template<typename Lhs, typename Rhs>
-            [[nodiscard]] constexpr auto operator()(Lhs const&, Rhs const& rhs) const
+            [[nodiscard]] constexpr auto operator()(Lhs const& lhs, Rhs const& rhs) const
             {
-                return measure_polarity(rhs);
+                // a sum which cannot be represented is below the range of the result
+                // iff either operand is negative, e.g. -1 + 0u
+                return (lhs < Lhs{} || rhs < Rhs{}) ? polarity::negative : polarity::positive;
             }
         };
 
         template<>
         struct overflow_polarity<subtract_op> {
             template<typename Lhs, typename Rhs>
-            [[nodiscard]] constexpr auto operator()(Lhs const&, Rhs const& rhs) const
+            [[nodiscard]] constexpr auto operator()(Lhs const& lhs, Rhs const& rhs) const
             {
-                return -measure_polarity(rhs);
+                // a difference which cannot be represented is above the range of the result
+                // iff a negative number is taken from a non-negative one, e.g. not 0u - 1
+                return (!(lhs < Lhs{}) && rhs < Rhs{}) ? polarity::positive : polarity::negative;
             }
         };
 
